@@ -234,6 +234,8 @@ class HttpResponder(object):
                 blen = spec['body'] if 'body' in spec else (
                     17 if H(w.sched_seed, 'httpbody', conn_n, k) % 3 == 0
                     else 0)
+                if spec.get('status', 200) in (204, 304):
+                    blen = 0            # (these have no body, by definition)
                 body = b'x' * int(blen or 0)
                 if body:
                     w.probe('http-response-body')
@@ -254,7 +256,10 @@ class HttpResponder(object):
                     rec['status'] = status
                     gevent.sleep(10 ** 7)
                     return
-                data += body
+                late = bool(body) and spec.get('body_late', H(
+                    w.sched_seed, 'httpbodylate', conn_n, k) % 2 == 0)
+                if not late:
+                    data += body
                 if act == 'partial':
                     w.fault('peer-partial-reply')
                     c.stalled_at = ('response', w.loop._now)
@@ -268,6 +273,12 @@ class HttpResponder(object):
                     return
                 sock.sendall(data)
                 rec['status'] = status
+                if late:
+                    # the body follows in a segment of its own, a moment
+                    # after the headers
+                    gevent.sleep(0.02)
+                    sock.sendall(body)
+                    w.probe('http-response-body-late')
                 if spec.get('close'):
                     return
         finally:
